@@ -121,6 +121,12 @@ ChunkLayouts == { c \in UNION { [1..k -> (0..5) \X (0..5) \X {0}] : k \in 0..3 }
 ASSUME \A c \in ChunkLayouts : \A a \in 0..5 : \A b \in a..5 :
           ChunkWalk(c, a, b) = { x \in PRange(c) : ChunkOverlaps(x, a, b) }
 
+(* populateChunk = "exactly the requested aggregates", for raw and aggregate chunks and every     *)
+(* request list of <= 3 aggregates (order and repetitions do not matter)                            *)
+AggrLists == UNION { [1..k -> 1..5] : k \in 0..3 }
+ASSUME \A c \in { <<0, 9, <<7>>>>, <<0, 9, <<11, 12, 13, 14, 15>>>> } : \A al \in AggrLists :
+          PopulateChunk(c, al) = ProjChunk(c, PRange(al))
+
 (* -------- leg B: worlds and matcher sets for the harness -------- *)
 CasesFile == IF "VERIF_CASES" \in DOMAIN IOEnv THEN IOEnv.VERIF_CASES ELSE "cases.ndjson"
 WorldCase(w) == [k |-> "w", series |-> SetToSeq({ s.ls : s \in w })]
